@@ -860,8 +860,9 @@ class ScenarioRunner:
             constants_for_params = scenario_loader.set_stored_food_buffer_zero(
                 constants_for_params
             )
-        elif (
-            scenario_option_copy["ratio_stocks_untouched"] == "no_stored_between_years"
+        elif scenario_option_copy["ratio_stocks_untouched"] in (
+            "no_stored_between_years",
+            "no_stored_food_between_years",  # the spelling documented in scenarios/README.md
         ):
             constants_for_params = scenario_loader.set_no_stored_food_between_years(
                 constants_for_params
